@@ -297,6 +297,72 @@ def key_rule(chk, rid, runs):
                                    "level is judged by a rule that only fits the other"), rel=run_.rel, node=n)
 
 
+def slots_rule(chk, ctx):
+    """Revolve family: the slot counts handed to the sequence builders and recorded by the base class are the declared
+    unit counts - level 0 (RAM) gets snapshots_in_ram, level 1 (DISK) snapshots_on_disk, the number of steps is max_n - 1.
+    (What the dynamic programs do with the slots is not decided; a schedule planned for other slot counts than the
+    declared ones exceeds or wastes the budget.)"""
+    import ast as _ast
+    from ..gram import lin_of
+    repo = ctx.repo
+    rel = "hrevolve.py"
+    chk.describe("C03.SLOTS", "Revolve family: the sequence builder and the base class receive the declared unit counts")
+    spec = {"HRevolve": ("hrevolve", ("snapshots_in_ram", "snapshots_on_disk"), "snapshots_on_disk"),
+            "DiskRevolve": ("disk_revolve", "snapshots_in_ram", None),
+            "PeriodicDiskRevolve": ("periodic_disk_revolve", "snapshots_in_ram", None),
+            "Revolve": ("revolve", "snapshots_in_ram", 0)}
+    for cname, (entry, slots, disk_decl) in spec.items():
+        try:
+            init = repo.method(rel, cname, "__init__")
+        except Exception:
+            continue
+        defs = single_defs(init)
+        for n in _ast.walk(init):
+            if isinstance(n, _ast.Assign) and len(n.targets) == 1 and isinstance(n.targets[0], _ast.Name) \
+                    and isinstance(n.value, (_ast.Tuple, _ast.List)) and n.targets[0].id not in defs \
+                    and sum(1 for x in _ast.walk(init) if isinstance(x, _ast.Name) and x.id == n.targets[0].id
+                            and isinstance(x.ctx, _ast.Store)) == 1:
+                defs[n.targets[0].id] = n.value
+        calls = [c for c in _ast.walk(init) if isinstance(c, _ast.Call) and getattr(c.func, "id", None) == entry]
+        base = f"hrevolve.{cname}.__init__"
+        if len(calls) != 1 or len(calls[0].args) < 2:
+            chk.decide("C03.SLOTS", base + "#builder-call", None, f"call of {entry} not found", rel=rel, node=init)
+            continue
+        call = calls[0]
+        steps = lin_of(subst_defs(call.args[0], defs))
+        want = Lin.sym("max_n") - ONE
+        d = (steps - want) if steps is not None else None
+        chk.decide("C03.SLOTS", base + "#steps", True if (d is not None and d.is_const() and d.c == 0) else
+                   (False if (d is not None and d.is_const()) else None),
+                   f"{entry}({_ast.unparse(call.args[0])}, ...): number of steps handed to the builder vs max_n - 1", rel=rel, node=call,
+                   nontrivial=False)
+        a1 = subst_defs(call.args[1], defs)
+        if isinstance(slots, tuple):
+            ok = None
+            if isinstance(a1, (_ast.Tuple, _ast.List)) and len(a1.elts) == len(slots):
+                got = [e.id if isinstance(e, _ast.Name) else None for e in a1.elts]
+                ok = True if got == list(slots) else (False if all(g is not None for g in got) else None)
+            chk.decide("C03.SLOTS", base + "#slots", ok,
+                       f"slot vector {_ast.unparse(a1)}: level 0 (RAM) must get snapshots_in_ram, level 1 (DISK) snapshots_on_disk"
+                       + ("" if ok is not False else ": the schedule is planned for other unit counts than the declared ones"),
+                       rel=rel, node=call)
+        else:
+            ok = True if (isinstance(a1, _ast.Name) and a1.id == slots) else (False if isinstance(a1, (_ast.Name, _ast.Constant)) else None)
+            chk.decide("C03.SLOTS", base + "#slots", ok, f"memory slots {_ast.unparse(a1)} vs the declared {slots}", rel=rel, node=call)
+        sup = [c for c in _ast.walk(init) if isinstance(c, _ast.Call) and isinstance(c.func, _ast.Attribute) and c.func.attr == "__init__"
+               and isinstance(c.func.value, _ast.Call) and getattr(c.func.value.func, "id", None) == "super"]
+        if len(sup) == 1 and len(sup[0].args) >= 3:
+            r_, d_ = subst_defs(sup[0].args[1], defs), subst_defs(sup[0].args[2], defs)
+            okr = True if (isinstance(r_, _ast.Name) and r_.id == "snapshots_in_ram") else (False if isinstance(r_, (_ast.Name, _ast.Constant)) else None)
+            if isinstance(disk_decl, str):
+                okd = True if (isinstance(d_, _ast.Name) and d_.id == disk_decl) else (False if isinstance(d_, (_ast.Name, _ast.Constant)) else None)
+            else:
+                okd = True if (isinstance(d_, _ast.Constant) and d_.value == disk_decl) else (False if isinstance(d_, (_ast.Name, _ast.Constant)) else None)
+            chk.decide("C03.SLOTS", base + "#declared", True if (okr and okd) else (False if (okr is False or okd is False) else None),
+                       f"base class records ({_ast.unparse(r_)}, {_ast.unparse(d_)}) as (RAM, DISK) unit counts; declared "
+                       f"(snapshots_in_ram, {disk_decl})", rel=rel, node=sup[0], nontrivial=False)
+
+
 def run(chk, ctx):
     chk.describe("C03.GUARD", "capacity raise-guards bound the depth by the declared capacity")
     chk.describe("C03.SLICE", "RAM labels: at most the declared number of stack positions")
@@ -311,5 +377,6 @@ def run(chk, ctx):
     slice_rules(chk, ctx)
     kind_rules(chk, runs)
     key_rule(chk, "C03.TRACK", runs)
+    slots_rule(chk, ctx)
     chk.note("not decided: that the slot arguments (cmem, cvect) of the Revolve/H-Revolve dynamic programs bound the number "
              "of simultaneously held checkpoints - a statement about run-time table values")
